@@ -364,7 +364,7 @@ class Engine:
 
 def add_entry(dump, name, val):
     ents = [e for e in dump.split(";") if e]
-    ents.append('"%s" act=1 1=%s' % (name, val.hex()))
+    ents.append('"%s" act=1 get=1 cond=304 1=%s' % (name, val.hex()))
     ents.sort(key=lambda e: e.split('"')[1])
     return "".join(e + ";" for e in ents)
 
